@@ -196,3 +196,16 @@ def replay_function(qual, inputs, registry=None):
             except Exception as ex:
                 failed.append('post: clauses not evaluable on this result (%s)' % str(ex)[:120])
     return dict(confirmed=bool(failed) and pre_ok, pre_ok=pre_ok, outcome=repr(outcome)[:400], failed=failed, detail='')
+
+
+def model_is_native(model):
+    """False when the counter-model mentions abstract objects (labels of the uninterpreted sort)"""
+    def bad(v):
+        if isinstance(v, str):
+            return v.startswith('obj:') or v.startswith('unreadable')
+        if isinstance(v, (list, tuple)):
+            return any(bad(x) for x in v)
+        if isinstance(v, dict):
+            return any(bad(x) for x in v.values())
+        return False
+    return not bad(model)
